@@ -292,7 +292,10 @@ def part_h(chk, thorough):
              # ... prefix keywords nest to the right like prefix operators do (second reading of 31d1353)
              ("Display", '#[display("{}", { %s 1u8 })] pub struct S;' % ("return " * 1000)), ("Display", '#[display("{:p}", %s 1u8)] pub struct S;' % ("&mut " * 1000)),
              ("Display", '#[display("{}", %s { 0 })] pub struct S(pub u8);' % ("if *_0 == 1 { 1 } else " * 1000)),
-             ("Display", '#[display("{}", loop { %s 1u8 })] pub struct S;' % ("break " * 1000))]
+             ("Display", '#[display("{}", loop { %s 1u8 })] pub struct S;' % ("break " * 1000)),
+             # ... and so do types: `fn() -> fn() -> ..`, `&'static &'static ..` (third reading, of 60f08cd)
+             ("Display", '#[display("{}", { let _f: Option<%s u8> = None; 0 })] pub struct S;' % ("fn() -> " * 1000)),
+             ("Display", '#[display("{}", { let _f: Option<%s u8> = None; 0 })] pub struct S;' % ("&\'static " * 1000))]
     eng = CompileEngine("C18H", mode="check", per_bin=1)
     eng._write_crate()
     for i, (d, item) in enumerate(progs):
@@ -305,12 +308,12 @@ def part_h(chk, thorough):
         if crashed:
             chk.outcome("deep-nesting-compiler-crash")
             m = re.search(r"[^\n]*(SIGSEGV|SIGABRT|stack overflow|signal: \d+)[^\n]*", text)
-            chk.violation("internal failure: the compiler process died on a deeply nested argument (%s)" % d, short, (m.group(0) if m else "exit %d" % p.returncode)[:300])
+            chk.violation("internal failure: the compiler process died on a deeply nested argument (%s, program %d)" % (d, i), short, (m.group(0) if m else "exit %d" % p.returncode)[:300])
         elif p.returncode == 0:
             chk.outcome("deep-nesting-compiles")
         else:
             chk.outcome("deep-nesting-diagnosed")
-    chk.part("h_deep_nesting", programs=len(progs), shapes=["1000 nested parentheses", "3000 prefix `!`", "2000 prefix `&`", "600 nested brackets", "700 nested closures", "1500 chained assignments", "1000 `return`", "1000 `&mut`", "1000 `else if`", "1000 `break`"], oracle="one rustc process per program: it must end by itself (ok or diagnostics), not by a signal")
+    chk.part("h_deep_nesting", programs=len(progs), shapes=["1000 nested parentheses", "3000 prefix `!`", "2000 prefix `&`", "600 nested brackets", "700 nested closures", "1500 chained assignments", "1000 `return`", "1000 `&mut`", "1000 `else if`", "1000 `break`", "1000 `fn() ->` in a type", "1000 `&'static` in a type"], oracle="one rustc process per program: it must end by itself (ok or diagnostics), not by a signal")
 
 
 def part_g(chk, thorough):
